@@ -14,6 +14,7 @@
 //   ddi;...    DipoleDipoleInteraction operator: symmetric, blocks = Thole tensor, multiply = dense
 #include <array>
 #include <cfloat>
+#include <type_traits>
 
 #include "bsx.h"
 #include "votca/xtp/classicalsegment.h"
@@ -528,10 +529,219 @@ static bsx::Outcome run_ddi(const DdiCase &c) {
   return o;
 }
 
+// ------------------------------------------------------------------ rotation pivots (argument aliasing)
+// StaticSite::Rotate(R, refPos) takes the pivot by const reference; callers pass temporaries, named
+// copies, Zero(), but also REFERENCES INTO THE OBJECTS BEING ROTATED: site.Rotate(R, site.getPos()),
+// seg.Rotate(R, seg[k].getPos()), seg.Rotate(R, seg.getPos()), B.Rotate(R, A.getPos()).  A common
+// rotation of two objects about such a pivot must still be the rigid rotation about the pivot's value
+// at the time of the call.
+static void stone_theta(const double *Q, M3 &th) {  // spherical (Stone) -> traceless Cartesian
+  const double s3 = std::sqrt(3.0);
+  th(2, 2) = Q[4];
+  th(0, 0) = -0.5 * Q[4] + 0.5 * s3 * Q[7];
+  th(1, 1) = -0.5 * Q[4] - 0.5 * s3 * Q[7];
+  th(0, 2) = th(2, 0) = 0.5 * s3 * Q[5];
+  th(1, 2) = th(2, 1) = 0.5 * s3 * Q[6];
+  th(0, 1) = th(1, 0) = 0.5 * s3 * Q[8];
+}
+static void stone_sph(const M3 &th, double *Q) {  // definitions of the spherical components
+  const double s3 = std::sqrt(3.0);
+  Q[4] = th(2, 2);
+  Q[5] = 2.0 / s3 * th(0, 2);
+  Q[6] = 2.0 / s3 * th(1, 2);
+  Q[7] = (th(0, 0) - th(1, 1)) / s3;
+  Q[8] = 2.0 / s3 * th(0, 1);
+}
+static void mixvec_fixed(int k, int which, double *Q) {
+  for (int i = 0; i < 9; i++) {
+    int t = (k * 37 + i * 11 + which * 5) % 17;
+    Q[i] = (double(t) - 8.0) / 4.0 + (t == 8 ? 0.375 : 0.0);
+  }
+}
+struct RotCase { int lvl = 0, piv = 0, rot = 0, rk = 0, ord = 0, geo = 0; };  // lvl: 0 StaticSite, 1 PolarSite, 2 StaticSegment, 3 PolarSegment
+static std::string rotstr(const RotCase &c) {
+  return "rot;lvl=" + std::to_string(c.lvl) + ";piv=" + std::to_string(c.piv) + ";rot=" + std::to_string(c.rot) + ";rk=" + std::to_string(c.rk) + ";ord=" +
+         std::to_string(c.ord) + ";geo=" + std::to_string(c.geo);
+}
+static const char *pivname(int p) {
+  static const char *n[8] = {"a temporary", "a named copy", "Vector3d::Zero()", "a reference to the first rotated site's position", "a reference to the middle site's position",
+                             "a reference to the last site's position", "a reference to the rotated segment's own position", "a reference to the position of a site of the other object"};
+  return n[p];
+}
+struct SnapSite { V3 p; double Q[9]; int rank; };
+template <class T>
+static SnapSite snap(const T &s) {
+  SnapSite x;
+  x.p = s.getPos();
+  for (int i = 0; i < 9; i++) x.Q[i] = s.Q()(i);
+  x.rank = (int)s.getRank();
+  return x;
+}
+// pair energies and static field terms recomputed from plain data (fresh objects), so that they do not depend on the objects under test
+static void energy_and_fields(const std::vector<SnapSite> &A, const std::vector<SnapSite> &B, double &E, std::vector<V3> &VB) {
+  eeInteractor ee;
+  StaticSegment sa("A", 0);
+  PolarSegment sb("B", 1);
+  auto tod = [](const SnapSite &x) { SiteD d; for (int k = 0; k < 3; k++) d.p[k] = x.p(k); for (int i = 0; i < 9; i++) d.Q[i] = x.Q[i]; d.rank = x.rank; return d; };
+  for (size_t i = 0; i < A.size(); i++) sa.push_back(mkstatic(tod(A[i]), (Index)i));
+  for (size_t i = 0; i < B.size(); i++) sb.push_back(mkpolar(tod(B[i]), (Index)i, 2.0 * M3::Identity()));
+  E = ee.CalcStaticEnergy(sa, sb);
+  ee.ApplyStaticField<StaticSegment, Estatic::V>(sa, sb);
+  VB.clear();
+  for (const PolarSite &s : sb) VB.push_back(s.V());
+}
+
+template <class T>
+static bsx::Outcome run_rot_t(const RotCase &c) {
+  bsx::Outcome o;
+  const bool seglevel = c.lvl >= 2;
+  const bool alias = c.piv >= 3 && !(c.piv == 6 && !seglevel);
+  std::string callno;
+  auto failwith = [&](const std::string &what_key, const std::string &what) {
+    o.ok = false;
+    o.key = std::string("rot-") + (alias ? "aliaspivot-" : "valuepivot-") + what_key + (seglevel ? "-segment" : "-site");
+    o.what = what + "  [" + (seglevel ? (c.lvl == 3 ? "PolarSegment" : "StaticSegment") : (c.lvl == 1 ? "PolarSite" : "StaticSite")) + "::Rotate, pivot passed as " + pivname(c.piv) +
+             ", rotation #" + std::to_string(c.rot) + ", rank config " + std::to_string(c.rk) + ", " + (c.ord ? "B rotated first" : "A rotated first") + ", geometry " +
+             std::to_string(c.geo) + callno + "]";
+    return o;
+  };
+  try {
+    static const std::vector<M3> rots = rotations();
+    const M3 Rm = rots[(size_t)c.rot];
+    const V3 G = c.geo ? V3(10, -20, 5) : V3(0, 0, 0);
+    const V3 offA[3] = {V3(0.3, -0.2, 0.1), V3(1.1, 0.4, -0.6), V3(-0.5, 0.9, 0.7)}, offB[2] = {V3(3.0, 1.0, -2.0), V3(2.2, -1.5, -2.9)};
+    const int rkA[4][3] = {{0, 0, 0}, {1, 1, 1}, {2, 2, 2}, {0, 1, 2}}, rkB[4][2] = {{0, 0}, {1, 1}, {2, 2}, {2, 1}};
+    ClassicalSegment<T> A("A", 0), B("B", 1);
+    auto mk = [&](const V3 &pos, int rank, int k, Index id) {
+      SiteD d;
+      for (int q = 0; q < 3; q++) d.p[q] = pos(q);
+      mixvec_fixed(k, 0, d.Q);
+      d.rank = rank;
+      for (int i = 0; i < 9; i++) if (comp_rank(i) > rank) d.Q[i] = 0;
+      if constexpr (std::is_same<T, PolarSite>::value) return mkpolar(d, id, 2.0 * M3::Identity());
+      else return mkstatic(d, id);
+    };
+    for (int i = 0; i < 3; i++) A.push_back(mk(G + offA[i], rkA[c.rk][i], 3 + i, i));
+    for (int i = 0; i < 2; i++) B.push_back(mk(G + offB[i], rkB[c.rk][i], 11 + i, i));
+    std::vector<SnapSite> A0, B0;
+    for (const T &s : A) A0.push_back(snap(s));
+    for (const T &s : B) B0.push_back(snap(s));
+    double E0;
+    std::vector<V3> V0;
+    energy_and_fields(A0, B0, E0, V0);
+    const V3 valuepivot = G + V3(0.1, 0.2, -0.3);
+    const V3 centreA = A.getPos();
+
+    // one Rotate call on object X (0 = A, 1 = B) [or on each of its sites], with the pivot passed in the shape under test
+    auto pivot_now = [&]() -> V3 {
+      switch (c.piv) {
+        case 0: case 1: return valuepivot;
+        case 2: return V3::Zero();
+        case 3: return A[0].getPos();
+        case 4: return A[1].getPos();
+        case 5: return A[2].getPos();
+        case 6: return seglevel ? V3(A.getPos()) : centreA;
+        default: return B[0].getPos();
+      }
+    };
+    auto rotate_obj = [&](ClassicalSegment<T> &X, int site /* -1: whole segment */) {
+      auto call = [&](const V3 &ref) { if (site < 0) X.Rotate(Rm, ref); else X[site].Rotate(Rm, ref); };
+      switch (c.piv) {
+        case 0: call(V3(valuepivot(0), valuepivot(1), valuepivot(2))); break;
+        case 1: { V3 cp = valuepivot; call(cp); break; }
+        case 2: call(V3::Zero()); break;
+        case 3: call(A[0].getPos()); break;
+        case 4: call(A[1].getPos()); break;
+        case 5: call(A[2].getPos()); break;
+        case 6: if (seglevel) call(A.getPos()); else { V3 cp = centreA; call(cp); } break;
+        default: call(B[0].getPos()); break;
+      }
+    };
+    int ncall = 0;
+    for (int which = 0; which < 2; which++) {
+      ClassicalSegment<T> &X = (which ^ c.ord) == 0 ? A : B;
+      const char *xn = (&X == &A) ? "A" : "B";
+      int nsub = seglevel ? 1 : (int)X.size();
+      for (int sub = 0; sub < nsub; sub++) {
+        ncall++;
+        callno = std::string(", call #") + std::to_string(ncall) + " on " + xn + (seglevel ? "" : "[" + std::to_string(sub) + "]");
+        const V3 pv = pivot_now();  // pivot VALUE before the call
+        std::vector<SnapSite> before;
+        for (const T &s : X) before.push_back(snap(s));
+        const V3 centre_before = X.getPos();
+        rotate_obj(X, seglevel ? -1 : sub);
+        for (int i = 0; i < (int)X.size(); i++) {
+          const bool touched = seglevel || i == sub;
+          const SnapSite &b = before[(size_t)i];
+          SnapSite n = snap(X[i]);
+          V3 want = touched ? V3(Rm * (b.p - pv) + pv) : b.p;
+          double psc = 1 + b.p.norm() + pv.norm();
+          if (!((n.p - want).norm() <= 64 * DBL_EPSILON * psc)) {
+            char t[300];
+            snprintf(t, sizeof t, "site %s[%d] at (%.6g,%.6g,%.6g) lands on (%.6g,%.6g,%.6g), R*(p-pivot)+pivot = (%.6g,%.6g,%.6g) with pivot value (%.6g,%.6g,%.6g) before the call",
+                     xn, i, b.p(0), b.p(1), b.p(2), n.p(0), n.p(1), n.p(2), want(0), want(1), want(2), pv(0), pv(1), pv(2));
+            return failwith("position", t);
+          }
+          // moments
+          double wantQ[9];
+          for (int k = 0; k < 9; k++) wantQ[k] = b.Q[k];
+          if (touched && b.rank > 0) { V3 mu = Rm * V3(b.Q[1], b.Q[2], b.Q[3]); wantQ[1] = mu(0); wantQ[2] = mu(1); wantQ[3] = mu(2); }
+          if (touched && b.rank > 1) { M3 th; stone_theta(b.Q, th); M3 r = Rm * th * Rm.transpose(); stone_sph(r, wantQ); }
+          double qn = 0;
+          for (int k = 0; k < 9; k++) qn += b.Q[k] * b.Q[k];
+          qn = std::sqrt(qn) + 1e-300;
+          if (n.rank != b.rank) return failwith("rank", std::string("rank of ") + xn + "[" + std::to_string(i) + "] changed");
+          if (n.Q[0] != b.Q[0]) return failwith("charge", std::string("charge of ") + xn + "[" + std::to_string(i) + "] changed");
+          for (int k = 1; k < 9; k++)
+            if (!(std::fabs(n.Q[k] - wantQ[k]) <= 64 * DBL_EPSILON * qn))
+              return failwith(k < 4 ? "dipole" : "quadrupole", std::string("moment component ") + std::to_string(k) + " of " + xn + "[" + std::to_string(i) + "] = " + bsx::fmt(n.Q[k]) +
+                                                                     ", rotated moment = " + bsx::fmt(wantQ[k]));
+        }
+        if (seglevel) {
+          V3 wantc = Rm * (centre_before - pv) + pv;
+          if (!((X.getPos() - wantc).norm() <= 64 * DBL_EPSILON * (1 + centre_before.norm() + pv.norm())))
+            return failwith("segment-centre", std::string("segment ") + xn + " position after Rotate = (" + bsx::fmt(X.getPos()(0)) + "," + bsx::fmt(X.getPos()(1)) + "," + bsx::fmt(X.getPos()(2)) + ")");
+        }
+      }
+    }
+    callno = ", after the common rotation";
+    // common rotation done: all pair energies unchanged, static field terms on B rotated with the frame
+    std::vector<SnapSite> A1, B1;
+    for (const T &s : A) A1.push_back(snap(s));
+    for (const T &s : B) B1.push_back(snap(s));
+    double E1;
+    std::vector<V3> V1;
+    energy_and_fields(A1, B1, E1, V1);
+    double esc = 0, vsc = 0;
+    for (auto &x : A0) for (auto &y : B0) { SiteD dx, dy; for (int k = 0; k < 9; k++) { dx.Q[k] = x.Q[k]; dy.Q[k] = y.Q[k]; } esc += escale(dx, dy, (x.p - y.p).norm()); }
+    for (auto &v : V0) vsc = std::max(vsc, v.norm());
+    vsc += esc;
+    if (!(std::fabs(E1 - E0) <= 1e-11 * esc))
+      return failwith("energy", "sum of pair energies A x B = " + bsx::fmt(E0) + " before and " + bsx::fmt(E1) + " after the common rotation");
+    for (size_t i = 0; i < V0.size(); i++)
+      if (!((V1[i] - Rm * V0[i]).norm() <= 1e-11 * vsc))
+        return failwith("field", "static field term on B[" + std::to_string(i) + "] is not the rotated one: |V' - R V| = " + bsx::fmt((V1[i] - Rm * V0[i]).norm()));
+    char b[96];
+    snprintf(b, sizeof b, "rot|%d|%d|%d|%.6e", c.lvl, c.rk, c.geo, E0);
+    o.cls = bsx::fnv(std::string(b) + "|" + std::to_string(c.rot) + "|" + std::to_string(c.piv));
+    o.extra = "E=" + bsx::fmt(E0) + " unchanged, " + std::to_string(ncall) + " Rotate calls";
+  } catch (const std::exception &e) {
+    return failwith("throws", std::string("exception: ") + e.what());
+  }
+  return o;
+}
+static bsx::Outcome run_rot(const RotCase &c) { return (c.lvl == 1 || c.lvl == 3) ? run_rot_t<PolarSite>(c) : run_rot_t<StaticSite>(c); }
+
 // ------------------------------------------------------------------ --case
 static bsx::Outcome run_case(const std::string &cas) {
   auto m = bsx::kvs(cas);
   if (cas.rfind("pair;", 0) == 0) return run_pair(parsesite(m, "a"), parsesite(m, "b"));
+  if (cas.rfind("rot;", 0) == 0) {
+    RotCase c;
+    c.lvl = atoi(m["lvl"].c_str()); c.piv = atoi(m["piv"].c_str()); c.rot = atoi(m["rot"].c_str()); c.rk = atoi(m["rk"].c_str());
+    c.ord = atoi(m["ord"].c_str()); c.geo = atoi(m["geo"].c_str());
+    return run_rot(c);
+  }
   if (cas.rfind("field;", 0) == 0) {
     FieldCase c;
     c.src = parsesite(m, "a"); c.tgt = parsesite(m, "b");
@@ -671,6 +881,21 @@ int main(int argc, char **argv) {
           if (shown_thole < 3 && gi % 211 == 3) { R.sample(tholestr(c).substr(0, 6) + " R=" + bsx::fmt(Rr) + " alpha1=" + bsx::fmt(a1[0]) + " alpha2=" + bsx::fmt(a2[0]) + " damping=" + bsx::fmt(dmp) + " -> " + o.extra); shown_thole++; }
         }
   }
+  // rotation pivots: every argument shape x level x rotation x rank configuration x call order x geometry
+  {
+    long long shown = 0;
+    for (int lvl = 0; lvl < 4; lvl++) for (int piv = 0; piv < 8; piv++) for (int rot = 0; rot < 6; rot++) for (int rk = 0; rk < 4; rk++)
+      for (int ord = 0; ord < 2; ord++) for (int geo = 0; geo < 2; geo++) {
+        if (!a.mine(gi++)) continue;
+        RotCase c;
+        c.lvl = lvl; c.piv = piv; c.rot = rot; c.rk = rk; c.ord = ord; c.geo = geo;
+        bsx::Outcome o = run_rot(c);
+        R.eval(); R.counters["rot_cases"]++;
+        if (!o.ok) { R.fail(o.key, o.what, rotstr(c)); continue; }
+        R.cls(o.cls);
+        if (shown < 2 && piv >= 3 && rot > 0 && gi % 97 == 13) { R.sample(rotstr(c) + " (pivot passed as " + pivname(piv) + ") -> " + o.extra); shown++; }
+      }
+  }
   // DipoleDipoleInteraction
   for (double scl : {0.5, 1.0, 3.0, 10.0, 100.0})
     for (double al : {1.0, 10.0})
@@ -696,7 +921,12 @@ int main(int argc, char **argv) {
            "pair energy, other accumulator untouched; ApplyInducedField = d E_indu_indu/d mu; E_indu_stat = mu_ind . static field term. (thole) "
            "polarisabilities x damping x R up to 1000: symmetric, T(1,2)=T(2,1), traceless and equal to the static dipole-dipole block when "
            "damping->inf or a u^3 >= 100 (u = R/(alpha1 alpha2)^(1/6)), weaker than undamped where a u^3 <= 10. (ddi) DipoleDipoleInteraction on 3 sites: symmetric, "
-           "blocks = Thole tensor / inverse polarisability, multiply = dense product. distinct_nontrivial = distinct (rank block, sign, binary "
+           "blocks = Thole tensor / inverse polarisability, multiply = dense product. (rot) Rotate(R, pivot) with EVERY pivot argument shape - temporary, named copy, "
+           "Vector3d::Zero(), references to the position of the first / middle / last rotated site, to the rotated segment's own position and to a site of the "
+           "other object - on StaticSite, PolarSite, StaticSegment, PolarSegment (3+2 sites away from the origin, 2 geometries) x 6 rotations x 4 rank "
+           "configurations x both call orders: after every call each site sits at R*(p - pivot)+pivot with the pivot VALUE taken before the call, charge/rank "
+           "unchanged, dipole = R mu, quadrupole = R Theta R^T (own Stone conversion), segment centre rotated; after the common rotation the sum of pair "
+           "energies is unchanged and the static field terms are the rotated ones. distinct_nontrivial = distinct (rank block, sign, binary "
            "exponent) of non-zero energies + distinct field vectors + distinct Thole deviations";
   R.assumptions = {"quadrupole moments follow Stone's convention (Q20 = Theta_zz, Theta_ab = sum q (3/2 r_a r_b - 1/2 r^2 delta_ab)), the one the .mps format documents",
                    "the field term is compared with +dE/dmu as the statement says ('equals the derivative'); it is the potential gradient, i.e. minus the physical field",
